@@ -60,15 +60,15 @@ Section RT.
     match nd, a, b with
     | NLeaf _, VLeaf x, VLeaf y => x = y
     | NSub _ _ fs, VCfg ca, VCfg cb => same_cfg fs ca cb
-    | NCfgList _ _ fs, VList la, VList lb =>
+    | NCfgList _ _ fs _, VList la, VList lb =>
         (fix items (la lb : list cfg) : Prop :=
            match la, lb with
            | [], [] => True
            | x :: r, y :: r' => same_cfg fs x y /\ items r r'
            | _, _ => False
            end) la lb
-    | NCfgList _ _ _, VList la, VLeaf PNone => la = []
-    | NCfgList _ _ _, VLeaf x, VLeaf y => x = PNone /\ y = PNone
+    | NCfgList _ _ _ _, VList la, VLeaf PNone => la = []
+    | NCfgList _ _ _ _, VLeaf x, VLeaf y => x = PNone /\ y = PNone
     | _, _, _ => False
     end.
 
@@ -95,15 +95,15 @@ Section RT.
     match nd, a, b with
     | NLeaf _, VLeaf x, VLeaf y => pyval_eqb x y
     | NSub _ _ fs, VCfg ca, VCfg cb => same_cfg fs ca cb
-    | NCfgList _ _ fs, VList la, VList lb =>
+    | NCfgList _ _ fs _, VList la, VList lb =>
         (fix items (la lb : list cfg) : bool :=
            match la, lb with
            | [], [] => true
            | x :: r, y :: r' => same_cfg fs x y && items r r'
            | _, _ => false
            end) la lb
-    | NCfgList _ _ _, VList la, VLeaf PNone => is_nil la
-    | NCfgList _ _ _, VLeaf PNone, VLeaf PNone => true
+    | NCfgList _ _ _ _, VList la, VLeaf PNone => is_nil la
+    | NCfgList _ _ _ _, VLeaf PNone, VLeaf PNone => true
     | _, _, _ => false
     end.
   Definition same_valuesb (fs : list (str * node)) (ca cb : cfg) : bool :=
@@ -139,8 +139,8 @@ Section RT.
     match nd, v with
     | NLeaf f, VLeaf x => lvalidate f x = Ok x
     | NSub dyn vs fs, VCfg c => valid_cfg dyn vs fs c
-    | NCfgList req _ _, VLeaf PNone => req = false
-    | NCfgList req vs fs, VList l =>
+    | NCfgList req _ _ _, VLeaf PNone => req = false
+    | NCfgList req vs fs _, VList l =>
         (req = true -> l <> [])
         /\ (fix items (l : list cfg) : Prop :=
               match l with [] => True | it :: r => valid_cfg false vs fs it /\ items r end) l
@@ -168,8 +168,8 @@ Section RT.
     match nd, v with
     | NLeaf f, VLeaf x => lvalidate f x = Ok x \/ exists e, lvalidate f x = Err e
     | NSub dyn _ fs, VCfg c => normal_cfg dyn fs c
-    | NCfgList _ _ _, VLeaf PNone => True
-    | NCfgList _ _ fs, VList l =>
+    | NCfgList _ _ _ _, VLeaf PNone => True
+    | NCfgList _ _ fs _, VList l =>
         (fix items (l : list cfg) : Prop :=
            match l with
            | [] => True
@@ -193,7 +193,7 @@ Section RT.
             end) fs in
     match nd, v with
     | NSub _ _ fs, VCfg c => cfg_dis fs c
-    | NCfgList _ _ fs, VList l =>
+    | NCfgList _ _ fs _, VList l =>
         (fix items (l : list cfg) : bool := match l with [] => false | it :: r => cfg_dis fs it || items r end) l
     | _, _ => false
     end.
@@ -209,7 +209,7 @@ Section RT.
             end) fs in
     match nd, v with
     | NSub _ _ fs, VCfg c => cfg_ok fs c
-    | NCfgList _ _ fs, VList l =>
+    | NCfgList _ _ fs _, VList l =>
         (fix items (l : list cfg) : bool := match l with [] => true | it :: r => cfg_ok fs it && items r end) l
     | _, _ => true
     end.
@@ -226,20 +226,21 @@ Definition run_roundtrip (rc : rtcase) : pyval :=
   match rc with
   | None => o_str "oracle-only"
   | Some (vt, dynamic, vs, fs, kw, ops) =>
-      match ctor vt w0 dynamic fs kw with
+      match ctor vt w0 dynamic vs fs kw with
       | (w1, root, OOk) =>
           let '(w2, final) :=
-            (fix go (ops : list (list pstep * cop)) (w : world) (root : cfg) : world * cfg :=
+            (fix go (ops : list (list pstep * xop leaf)) (w : world) (last : kept leaf) (root : cfg) : world * cfg :=
                match ops with
                | [] => (w, root)
                | (ps, o) :: r =>
-                   let '(w', root', _) := at_path leaf lvalidate lto_python ldefault l_callable lflag (vrun vt) ps w [] root dynamic vs fs o in
-                   go r w' root'
-               end) ops w1 root in
+                   let '(w', last', root', _) :=
+                     at_path_xs leaf lvalidate lto_python ldefault l_callable lflag (vrun vt) ps w last [] root dynamic vs fs o in
+                   go r w' last' root'
+               end) ops w1 None root in
           let tr := to_tree leaf lto_basic l_sensitive py_strlen None fs final in
           match tr with
           | Ok t =>
-              let '(w3, fresh) := build_cfg leaf ldefault l_callable w2 fs in
+              let '(w3, fresh) := build_cfg leaf lvalidate lto_python ldefault l_callable lflag (vrun vt) w2 fs in
               let '(w4, c', o) := load_tree leaf lvalidate lto_python ldefault l_callable lflag (vrun vt) t true w3 [] fresh dynamic vs fs in
               PTuple [o_str "ok"; o_cfg' final; o_rpy tr; o_oc o; o_cfg' c'; PBool (same_valuesb leaf fs c' final)]
           | _ => PTuple [o_str "ok"; o_cfg' final; o_rpy tr]
